@@ -36,6 +36,13 @@ def dlisten (d : DState) (s : Sub) : DState :=
 def ddispatch (d : DState) (ty v : Nat) : List (Nat × Nat) :=
   ((d.tbl ty).filter fun e => e.sub.flt v).map fun e => (e.sid, e.sub.lid)
 
+/-- what the calls of one dispatch do: every selected subscription is invoked from its own loop
+    callback (`call_soon(func, message)`: an exception ends in the loop's exception handler) or
+    its own task (`_call_listener` catches), so whether a call raises (`raises sid v`) has no
+    influence on which other calls are made -/
+def dcalls (raises : Nat → Nat → Bool) (d : DState) (ty v : Nat) : List (Nat × Nat × Bool) :=
+  (ddispatch d ty v).map fun c => (c.1, c.2, raises c.1 v)
+
 def drun (subs : List Sub) : DState := subs.foldl dlisten dinit
 
 end PyatvModel.C03
